@@ -77,6 +77,13 @@ func runC12(r *core.Run) {
 		{"group-frac2", "SELECT b, SUM(f * 1.1) AS s, COUNT(DISTINCT f) AS c FROM t GROUP BY b HAVING SUM(f) > 0;"},
 		{"analytic-frac", "SELECT id, SUM(f) OVER (PARTITION BY k) AS s, AVG(f) OVER (ORDER BY id) AS m, SUM(f) OVER () AS tot FROM t;"},
 		{"update-frac", "UPDATE t SET f = f * 1.07 WHERE k > 1; COMMIT; SELECT SUM(f) FROM t;"},
+		// two declared datetime notations that overlap (day first, month first): which one reads a text is decided per value, in the
+		// declared order - not by what another worker's previous value happened to match
+		{"dt-formats", "SET @@DATETIME_FORMAT TO '[\"%d/%m/%Y\", \"%m/%d/%Y\"]'; SELECT id, d, DATETIME_FORMAT(DATETIME(d), '%Y-%m-%d') AS x, MONTH(d) AS m FROM t;"},
+		{"dt-order", "SET @@DATETIME_FORMAT TO '[\"%d/%m/%Y\", \"%m/%d/%Y\"]'; SELECT id, d FROM t WHERE d > '01/01/2003' ORDER BY d, id;"},
+		{"dt-group", "SET @@DATETIME_FORMAT TO '[\"%d/%m/%Y\", \"%m/%d/%Y\"]'; SELECT d, COUNT(*) AS n, MIN(id) AS i FROM t GROUP BY d;"},
+		// arguments of analytic functions that refer to columns (the default of LAG / LEAD), several partitions per worker
+		{"analytic-colarg", "SELECT id, k, LAG(a, 1, id) OVER (PARTITION BY k, b ORDER BY id) AS l, LEAD(id, 1, a) OVER (PARTITION BY k, b ORDER BY id) AS ld, LAG(b, 2, b) OVER (PARTITION BY k ORDER BY id) AS lb FROM t;"},
 		{"subquery", "SELECT id FROM t WHERE k IN (SELECT k FROM u WHERE a > 0);"},
 		{"insert-select", "CREATE TABLE `w.csv` (id, k, n); INSERT INTO `w.csv` SELECT t.id, t.k, u.id FROM t JOIN u ON t.k = u.k; COMMIT;"},
 		{"update", "UPDATE t SET a = a + 1 WHERE k = 1; DELETE FROM t WHERE b IS NULL; COMMIT;"},
@@ -93,7 +100,7 @@ func runC12(r *core.Run) {
 	var jobs []job
 	tables := map[int][2]*rtable{}
 	for _, n := range sizes {
-		t := genTable(r, "t", []string{"id", "a", "b", "k", "f"}, []colGen{genID, genNum(3), genText, genInt(5), genFrac}, n)
+		t := genTable(r, "t", []string{"id", "a", "b", "k", "f", "d"}, []colGen{genID, genNum(3), genText, genInt(5), genFrac, genDateAmb}, n)
 		u := genTable(r, "u", []string{"id", "a", "b", "k"}, []colGen{genID, genNum(3), genText, genInt(5)}, 12)
 		tables[n] = [2]*rtable{t, u}
 		for _, p := range programs {
